@@ -69,6 +69,7 @@ class Tr:
         self.mode = mode
         self.S = "N" if mode == "N" else "Z"
         self.strings = set()
+        self.scan = None      # (string name, index variable, Coq name of the scanned character)
 
     # ---- types
     def ubits(self, t):
@@ -163,6 +164,10 @@ class Tr:
             raise LeafError("unsupported call")
         if k == "ArraySubscriptExpr" and self.mode == "Z":
             idx = self.strip_casts(inner[1])
+            if self.scan and idx.get("kind") == "DeclRefExpr" and \
+                    idx.get("referencedDecl", {}).get("name") == self.scan[1] and \
+                    self.string_ref(inner[0]) == self.scan[0]:
+                return self.scan[2]
             if idx.get("kind") != "IntegerLiteral" or int(idx["value"]) < 0:
                 raise LeafError("array index is not a non-negative literal")
             return "(nth %d%%nat %s 0)" % (int(idx["value"]), self.string_ref(inner[0]))
@@ -323,3 +328,79 @@ def translate(fdecl, gname, mode):
     S = tr.S
     return "Definition %s %s : %s :=\n  %s%%%s.\n" % (
         gname, " ".join("(%s : %s)" % (p, t) for p, t in params), S, e, S)
+
+
+def translate_scan_down(fdecl, gname):
+    """Recognises, among the top-level statements of the function, the descending scan
+
+        int L = (int)strlen(S);  ...  int P = L - 1;
+        while (P >= 0) { if (C) { break; } --P; }
+
+    for a `const char *` parameter S, where C mentions only S[P] and literals, and returns
+    `Definition gname (c : Z) : bool := C[S[P] := c]`.  Meaning of the recognised loop (part of the
+    trusted translator): afterwards P is the index of the LAST character of S satisfying C, -1 if
+    there is none.  Any other shape (another loop, strrchr, an ascending scan ...) raises LeafError."""
+    tr = Tr("Z")
+    body = None
+    for c in fdecl.get("inner", []):
+        if c.get("kind") == "ParmVarDecl" and qt(c).replace(" ", "") == "constchar*":
+            tr.strings.add(c["name"])
+        elif c.get("kind") == "CompoundStmt":
+            body = c
+    if body is None:
+        raise LeafError("no body")
+    stmts = body.get("inner", [])
+
+    def var_decl(st):
+        if st.get("kind") == "DeclStmt" and len(st.get("inner", [])) == 1 and st["inner"][0].get("kind") == "VarDecl" \
+                and st["inner"][0].get("inner"):
+            return st["inner"][0]
+        return None
+
+    def ref_name(n):
+        n = tr.strip_casts(n)
+        return n.get("referencedDecl", {}).get("name") if n.get("kind") == "DeclRefExpr" else None
+
+    lens = {}      # int variable -> string whose strlen it holds
+    for st in stmts:
+        d = var_decl(st)
+        if d is None:
+            continue
+        init = d["inner"][0]
+        while init.get("kind") in ("CStyleCastExpr", "ImplicitCastExpr", "ParenExpr"):
+            init = init["inner"][0]
+        if init.get("kind") == "CallExpr" and ref_name(init["inner"][0]) == "strlen" and len(init["inner"]) == 2:
+            sname = ref_name(init["inner"][1])
+            if sname in tr.strings:
+                lens[d["name"]] = sname
+    for i in range(len(stmts) - 1):
+        d, w = var_decl(stmts[i]), stmts[i + 1]
+        if d is None or w.get("kind") != "WhileStmt":
+            continue
+        init = tr.strip_casts(d["inner"][0])
+        if not (init.get("kind") == "BinaryOperator" and init.get("opcode") == "-"
+                and ref_name(init["inner"][0]) in lens
+                and tr.strip_casts(init["inner"][1]).get("kind") == "IntegerLiteral"
+                and int(tr.strip_casts(init["inner"][1])["value"]) == 1):
+            continue
+        P, S = d["name"], lens[ref_name(init["inner"][0])]
+        cond, wbody = w["inner"][0], w["inner"][1]
+        c0 = tr.strip_casts(cond)
+        if not (c0.get("kind") == "BinaryOperator" and c0.get("opcode") == ">=" and ref_name(c0["inner"][0]) == P
+                and tr.strip_casts(c0["inner"][1]).get("kind") == "IntegerLiteral"
+                and int(tr.strip_casts(c0["inner"][1])["value"]) == 0):
+            raise LeafError("scan loop condition is not `%s >= 0`" % P)
+        bs = wbody.get("inner", []) if wbody.get("kind") == "CompoundStmt" else [wbody]
+        if len(bs) != 2 or bs[0].get("kind") != "IfStmt" or len(bs[0]["inner"]) != 2:
+            raise LeafError("scan loop body is not `if (C) break; --%s;`" % P)
+        then = bs[0]["inner"][1]
+        tb = then.get("inner", []) if then.get("kind") == "CompoundStmt" else [then]
+        if len(tb) != 1 or tb[0].get("kind") != "BreakStmt":
+            raise LeafError("scan loop: the branch does not just break")
+        dec = bs[1]
+        if not (dec.get("kind") == "UnaryOperator" and dec.get("opcode") == "--" and ref_name(dec["inner"][0]) == P):
+            raise LeafError("scan loop: index is not decremented by one")
+        tr.scan = (S, P, "c")
+        e = tr.cond(bs[0]["inner"][0])
+        return "Definition %s (c : Z) : bool :=\n  %s%%Z.\n" % (gname, e)
+    raise LeafError("no descending separator scan found")
